@@ -30,6 +30,10 @@ CHECKS = {
    "runtime monitor: exactly-once / own-answer oracle over recorded call histories with unique tokens, callee-side execution counters, raw-frame injection with FIFO barriers; Go race detector",
    "Real directory server + freshly generated Probe service in-process; concurrent callers over several sessions (and two proxies of one bus.Cache), method bodies parked and released in PRNG order so replies cross, context cancellations, and a raw connection sending every message type at real actions. Every call must return exactly f(own token, own arg) or an error, with per-token execution counts 1 / <=1 / 0 as the property demands. Held on the histories observed (calls, max in flight and reply-order inversions are reported).",
    "Trusts the harness service implementation's counters and the per-connection FIFO + mailbox FIFO argument used as 'processed' barrier. Race reports are recorded, the verdict comes from the behavioural monitor.", "DESIGN.md section 3 C04"),
+ "C05": ("codegen", "exploration",
+   "runtime monitor of generated code: compile oracle (go build of freshly generated stubs/proxies) + reflection-driven round-trip oracle in a runner process over a real server and session; quiescence detector for calls/events that never arrive",
+   "PRNG-generated well-formed IDL packages (three classes: plain, tuples, hygiene = hostile identifiers) are accepted by the real IDL parser, fed to the generator built from the current tree, completed with implementors/drivers derived from the generated interfaces (go/ast), compiled, and driven: for every method random arguments must arrive equal and exactly once and the preset result must return equal; every signal emitted through the helper must reach the generated subscriber equal; property set/get/update must round-trip. Held on the packages observed.",
+   "Findings of the hygiene class are keyed by the role of the offending identifier (one root cause per role); several are listed in KNOWN_FINDINGS.txt because an existing test pins the unescaped names. Packages whose IDL my generator got wrong (parser rejects) are counted, not judged.", "DESIGN.md section 3 C05"),
  "C06": ("bus", "exploration",
    "runtime monitor: per-connection authentication-state shadow + per-token execution counters + raw-frame grammar; stream-end decided by quiescence detector; Go race detector",
    "A real server with a recording dictionary authenticator; 2-4 raw connections per plan send PRNG frame sequences (every type, service, object, action; capability-map variants incl. forged state, wrongly typed / raw-typed credentials, truncated, oversized; work() tokens unique per connection; invalid headers). A token sent before a well-formed authenticate with accepted credentials on that same connection must never execute; an unauthenticated Call to another service must get an Error for its id and the stream must end. Held on the sequences observed.",
@@ -102,7 +106,9 @@ m = {
  "engines": [
    {"name": "codec", "path": "harness/cmd/codec", "serves_properties": ["C01","C02","C03","C07","C08","C09","C18","C20"],
     "kind_free_text": "in-process differential monitors of the real codecs against an independent reference codec; child process per shard, crash attribution by progress marks"},
-   {"name": "bus", "path": "harness/cmd/bus", "serves_properties": ["C04","C06","C10","C11","C13","C14","C15","C16","C17","C19"],
+   {"name": "codegen", "path": "harness/cmd/codegen", "serves_properties": ["C05"],
+    "kind_free_text": "IDL package generator + generator-under-test + go build + runner process with reflection-based round-trip drivers (harness/c05rt)"},
+   {"name": "bus", "path": "harness/cmd/bus", "serves_properties": ["C04","C06","C10","C11","C12","C13","C14","C15","C16","C17","C19"],
     "kind_free_text": "real endpoints / clients / servers run in-process under -race over harness-owned streams, listeners and service implementations; history and counter monitors; goroutine-state quiescence detector"},
  ],
  "checks": [],
